@@ -6,6 +6,7 @@ import JxlModel.Model.Enc.Frame
 Plan grammar (whitespace separated, one image per line):
 ```
 img W H BITS FLOATEXP ORIENT GRAY BUF16 NEC {TY DIMSHIFT BITS ALPHAASSOC}*NEC ANIM [NUM DEN LOOPS TC] [icc ANS PLANMODE HEXPROFILE]
+    { iccraw N byte*N | spot ECIDX R G B SOLIDITY }*   (optional; iccraw = encoded ICC byte stream)
 frames N { frame TY UPS {ECUPS}*NEC GSHIFT HAVECROP X0 Y0 W H BMODE BALPHA BCLAMP BSRC
            {MODE ALPHA CLAMP SRC}*NEC DUR ISLAST SAVEREF SAVEBEFORECT GAB EPFITERS
            wp 1 | wp 0 P1 P2 P3A P3B P3C P3D P3E W0 W1 W2 W3
@@ -90,6 +91,27 @@ def transform : P Transform := do
 def blend : P Blend := do
   pure { mode := (← nat), alpha := (← nat), clamp := (← bool), source := (← nat) }
 
+/-- `enc_size` as `U64`, then `Decoder::parse(41)` with a single cluster and the bytes as symbols -/
+def iccBits (enc : List Nat) : List Bool :=
+  let w0 : BW := #[]
+  (v0Stream (w0.u64 enc.length) 41 (List.replicate 41 0) (enc.map fun b => (0, b))).toList
+
+/-- optional trailing tokens of the image part (old plans have none):
+`iccraw N byte*N` = an already ENCODED ICC byte stream; `spot ECIDX R G B S` = f16 bit patterns -/
+partial def imgOpts (h : ImgHdr) : P ImgHdr := do
+  match (← get).head? with
+  | some "iccraw" =>
+    kw "iccraw"
+    let n ← nat
+    let bytes ← rep n nat
+    imgOpts { h with icc := some (iccBits bytes) }
+  | some "spot" =>
+    kw "spot"
+    let k ← nat
+    let vals ← rep 4 nat
+    imgOpts { h with ecs := h.ecs.mapIdx fun i e => if i == k then { e with spot := vals } else e }
+  | _ => pure h
+
 def imgHdr : P ImgHdr := do
   kw "img"
   let w ← nat
@@ -129,7 +151,7 @@ def imgHdr : P ImgHdr := do
         pure (some (iccStreamBits ans (Jxl.Icc.encodeIcc plan prof)))
       | none => failure
     | _ => pure none)
-  pure { w, h, bits, floatExp := if fe == 0 then none else some fe, orientation := orient, gray, buf16, ecs, anim := an, icc }
+  imgOpts { w, h, bits, floatExp := if fe == 0 then none else some fe, orientation := orient, gray, buf16, ecs, anim := an, icc }
 
 def framePlan (nec : Nat) : P FramePlan := do
   kw "frame"
